@@ -34,13 +34,12 @@ def leWord : List UInt8 → UInt32
 def wordLE (w : UInt32) : List UInt8 :=
   [w.toUInt8, (w >>> 8).toUInt8, (w >>> 16).toUInt8, (w >>> 24).toUInt8]
 
-def chunks {α} (n : Nat) (l : List α) : List (List α) :=
-  if h : n = 0 ∨ l = [] then [] else l.take n :: chunks n (l.drop n)
-termination_by l.length
-decreasing_by
-  have : l ≠ [] := fun e => h (Or.inr e)
-  have : 0 < l.length := List.length_pos_iff.mpr this
-  simp only [List.length_drop]; omega
+def chunksGo {α} (n : Nat) : Nat → List α → List (List α)
+  | 0, _ => []
+  | f + 1, l => if n == 0 || l.isEmpty then [] else l.take n :: chunksGo n f (l.drop n)
+
+/-- consecutive pieces of `n` elements (the fuel only makes the recursion structural) -/
+def chunks {α} (n : Nat) (l : List α) : List (List α) := chunksGo n l.length l
 
 structure MD5State where
   a : UInt32
